@@ -48,7 +48,9 @@ LEVEL_TEXT = ("Machine-checked: an inductive invariant (ownership of stepMtx/pau
               "transition system of StepGuard/PauseGuard/Bump/Unbump/Run/Stop for ONE driver thread and ANY number of user threads with "
               "arbitrary programs; from it: at most one thread is in a step-protected region and it owns stepMtx (handlers, tasks and "
               "management mutations never overlap), quiescence at lock level (while a user thread is in its critical section the driver "
-              "is outside every handler/task). The executable validator is proved sound (accepted traces are Tr-paths inside Reach). "
+              "is outside every handler/task) and quiescence at data level over the dispatch model (destroyed_socket_stays_silent, "
+              "disconnected_socket_stays_silent: after AsyncUnregister NO continuation of any history - peers sending, closing, resetting, "
+              "other sockets, any steps - ever invokes a handler of that socket again; ids are never reused). The executable validator is proved sound (accepted traces are Tr-paths inside Reach). "
               "Tied to /repo by running the real library threads under a deterministic scheduler and requiring every lock/poll/pipe event "
               "to be a transition of the model with identical mutex ownership, plus direct checks of the property on the trace "
               "(no overlap, handler on driver thread holding stepMtx, nothing after destructor/Cancel returned).")
